@@ -1,12 +1,62 @@
-(* C20 — debug / dump / profiling options never change behaviour.
-   In the model the only options that touch control or data are KEEP_DEPENDENCIES (p_keep) and, for
-   the runaway guard, MAX_TASK_STACK_SIZE; every DUMP_* flag and COLLECT_PERF_STATS are diagnostic
-   output only - that they are inert in the real code is what the option-variant runs of the check
-   establish.  Proved here (corollary of C01): for tree programs the outcome of value() is the same
-   under ANY two parameter sets - KEEP_DEPENDENCIES on or off, any flush oracle, any priorities -
-   namely the sequential value.  The trace-level statement (same flushes, same context events) is
-   not proved; it rests on the correspondence. *)
-From Asynq Require Import Machine Seq proofs.MachineC08 proofs.MachineC01 proofs.MachineC20.
+(* C20 - debug / dump / profiling options never change behaviour.
+   WHAT EXISTS IN THE MODEL.  The only option of the property that the machine has is KEEP_DEPENDENCIES
+   = p_keep (read once, in the MResume transition of Machine.step).  DUMP_* flags, COLLECT_PERF_STATS and
+   the complex-assertion switch do NOT exist in the model: their inertness is checked only by the
+   correspondence harness (option-variant runs of the implementation against the default run and
+   against the model).  Also not modelled: with KEEP_DEPENDENCIES off, BatchBase.flush clears
+   batch.items after the flush (batching.py 90); the model always keeps b_items.
+
+   HISTORY.  The first version of the inertness theorem was REFUTED on the model of the code as it
+   was, by exactly the program cxk_root below (with KEEP_DEPENDENCIES a task that yields a future-less
+   structure after it has awaited something was sent back through the scheduler loop by
+   `len(self._dependencies) > 0`; after a MAX_TASK_STACK_SIZE reset that loop pauses/resumes the root's
+   contexts: an extra EvPause/EvResume pair, and Err 77 instead of Ok 5 when that resume() raises; also
+   three extra transitions per such yield).  The witness reproduced on the implementation (both
+   builds) and was fixed in /repo commit 6f3969f (AsyncTask._continue returns to the scheduler loop only
+   if the CURRENT yield added dependencies).  The model now follows the repaired code (Machine.step,
+   Yield case, branches on the futures of this yield).  C20_first_witness_repaired: on the repaired
+   model both settings give the same trace and outcome for that program, with NoFault and with
+   ResumeRaises 1 77; C20_keep_dependencies_costs_no_fuel: the fuel difference is gone too.
+
+   PROVED (proofs/MachineKeep.v; every program, not only trees; every service behaviour, priorities,
+   flush oracle, history of root computations and fuel):
+   (a) C20_keep_dependencies_inert_when_resumes_are_guarded: for P, P' that differ only in p_keep
+       (same_but_keep), Machine.run_case returns the SAME list of outcomes and the SAME trace (all
+       events: steps, values, flushes with their items, item results, before/after flush, context
+       pause/resume, scoped-value reads, active-task probes, scheduler state) provided that in ONE of
+       the two runs (either one; the other then satisfies it too) every resume finds no uncomputed
+       future among the stored dependencies of its task (hist_guarded resume_ok, a decidable check
+       along the run).  This is the C03 property "a task resumes only when all it awaits is done".
+   (b) C20_keep_dependencies_preserves_success_when_resumes_are_guarded: under the same hypothesis no
+       setting of the option turns a successful computation into a failing one (corollary of (a)).
+   (c) C20_keep_dependencies_one_step: the step-level simulation behind (a): configurations with the
+       same normal form (everything equal except tk_deps, whose uncomputed members agree in order)
+       step to configurations with the same normal form, if the task being resumed (if any) has all
+       stored dependencies computed.  No other side condition is left (the Yield guard of the first
+       version is gone with the repair).
+   (d) the tree corollary of C01 kept from before (same final outcome under any two parameter sets).
+   STILL REFUTED for the faithful model (the full-strength statements are kept as Definitions):
+   (e) C20_keep_dependencies_inert_statement and C20_keep_dependencies_preserves_success_statement
+       (no hypothesis at all) are FALSE, but now only through the machine's re-entrancy artifact, the
+       one recorded in props/C03.v: a task re-entered through a synchronous .value() of a task that
+       awaits it (CPython raises "generator already executing" at that point, so the witness cannot
+       be replayed on the implementation).  Witness cxr_root (MAX_TASK_STACK_SIZE = 3): the inner
+       activation of the root yields a batch item, the stack guard unwinds into the outer activation,
+       which is then resumed with an UNCOMPUTED stored dependency - dropped without the option, kept
+       with it; a later nested loop finds the root blocked only with the option (traces differ;
+       outcomes Ok 100 with the option, Err FutureIsAlreadyComputed without).  The witness violates
+       the hypothesis of (a) in both runs and contains a re-entrant resume (cxr_not_guarded).
+   (f) C20_keep_dependencies_inert_without_reentry (+ ..._preserves_success_without_reentry): the
+       hypothesis of (a) holds on every history WITHOUT a re-entrant resume (hist_guarded no_reentry:
+       no configuration "resume t" while a frame "body of t inside value()" is on the stack; decidable,
+       checked on one run).  So KEEP_DEPENDENCIES is inert - same outcomes, same trace, for every
+       program, history, oracle and fuel - on everything CPython can execute; the only runs of the
+       machine excluded are those using the artifact of (e).
+   NOT PROVED: a static criterion on programs excluding re-entrancy (tree programs do, by C01/C03, but
+   that is not connected here); anything about options other than KEEP_DEPENDENCIES (correspondence
+   only). *)
+From Asynq Require Import Machine Seq proofs.MachineC08 proofs.MachineC01 proofs.MachineC20 proofs.MachineSteps
+  proofs.MachineKeep.
 
 Theorem C20_outcome_independent_of_options_tree : forall P P' p n n' o o',
   pointwise P -> pointwise P' -> tree p ->
@@ -19,3 +69,86 @@ Theorem C20_outcome_independent_of_options_tree : forall P P' p n n' o o',
   o = o'.
 Proof. exact outcome_independent_of_options_tree. Qed.
 Print Assumptions C20_outcome_independent_of_options_tree.
+
+(* ---- KEEP_DEPENDENCIES on the trace level, every program (proofs/MachineKeep.v) ----
+   same_but_keep P P' : p_kinds, p_maxstack and p_oracle agree (p_keep is free).
+   resume_ok c : if c is about to resume task t (mode MResume t), no stored dependency of t is uncomputed.
+   hist_guarded ok P fuel ps s : ok holds in every configuration from which a run of the history takes a step. *)
+Definition C20_keep_dependencies_inert_statement : Prop :=
+  forall P P' fuel ps, same_but_keep P P' -> run_case P fuel ps = run_case P' fuel ps.
+
+Theorem C20_keep_dependencies_inert_statement_is_false : ~ C20_keep_dependencies_inert_statement.
+Proof. exact keep_inert_statement_is_false. Qed.
+Print Assumptions C20_keep_dependencies_inert_statement_is_false.
+
+Definition C20_keep_dependencies_preserves_success_statement : Prop :=
+  forall P P' fuel fuel' ps v e, same_but_keep P P' ->
+    fst (run_case P fuel ps) = [Some (Ok v)] -> fst (run_case P' fuel' ps) <> [Some (Err e)].
+
+Theorem C20_keep_dependencies_preserves_success_statement_is_false :
+  ~ C20_keep_dependencies_preserves_success_statement.
+Proof. exact keep_preserves_success_statement_is_false. Qed.
+Print Assumptions C20_keep_dependencies_preserves_success_statement_is_false.
+
+Theorem C20_keep_dependencies_inert_when_resumes_are_guarded : forall P P' fuel ps,
+  same_but_keep P P' -> hist_guarded resume_ok P fuel ps (st0 P) = true ->
+  run_case P fuel ps = run_case P' fuel ps.
+Proof. exact keep_inert_guarded. Qed.
+Print Assumptions C20_keep_dependencies_inert_when_resumes_are_guarded.
+
+Theorem C20_keep_dependencies_preserves_success_when_resumes_are_guarded : forall P P' fuel ps os e,
+  same_but_keep P P' -> hist_guarded resume_ok P fuel ps (st0 P) = true ->
+  fst (run_case P fuel ps) = os -> ~ In (Some (Err e)) os -> ~ In (Some (Err e)) (fst (run_case P' fuel ps)).
+Proof. exact keep_preserves_success_guarded. Qed.
+Print Assumptions C20_keep_dependencies_preserves_success_when_resumes_are_guarded.
+
+Theorem C20_keep_dependencies_one_step : forall P P' c c',
+  same_but_keep P P' -> sim c c' -> dom_ok (c_st c) -> dom_ok (c_st c') -> rinv c ->
+  sim (step P c) (step P' c').
+Proof. exact sim_step. Qed.
+Print Assumptions C20_keep_dependencies_one_step.
+
+(* no_reentry c : c is not "about to resume t (mode MResume t) while a frame FValue t _ is on the stack". *)
+Theorem C20_keep_dependencies_inert_without_reentry : forall P P' fuel ps,
+  same_but_keep P P' -> hist_guarded no_reentry P fuel ps (st0 P) = true ->
+  run_case P fuel ps = run_case P' fuel ps.
+Proof. exact keep_inert_no_reentry. Qed.
+Print Assumptions C20_keep_dependencies_inert_without_reentry.
+
+Theorem C20_keep_dependencies_preserves_success_without_reentry : forall P P' fuel ps os e,
+  same_but_keep P P' -> hist_guarded no_reentry P fuel ps (st0 P) = true ->
+  fst (run_case P fuel ps) = os -> ~ In (Some (Err e)) os -> ~ In (Some (Err e)) (fst (run_case P' fuel ps)).
+Proof. exact keep_preserves_success_no_reentry. Qed.
+Print Assumptions C20_keep_dependencies_preserves_success_without_reentry.
+
+(* the program that refuted the first version, on the repaired model *)
+Theorem C20_first_witness_repaired :
+  run_case (cxk_P true) 200 [cxk_root NoFault] =
+  ([Some (Ok (VInt 5))],
+   [EvStep [0%Z] 0 (Ok VNone); EvResume [0%Z] 7; EvStep [1%Z] 0 (Ok VNone); EvStep [1%Z] 1 (Ok (VInt 1));
+    EvGot [1%Z] (Err E_RUNTIME); EvStep [1%Z] 2 (Ok VNone); EvDone [1%Z] (Ok (VInt 5));
+    EvStep [0%Z] 1 (Ok (VInt 5)); EvPause [0%Z] 7; EvDone [0%Z] (Ok (VInt 5)); EvSched 0 0 None]) /\
+  run_case (cxk_P false) 200 [cxk_root NoFault] = run_case (cxk_P true) 200 [cxk_root NoFault] /\
+  fst (run_case (cxk_P false) 200 [cxk_root (ResumeRaises 1 77%Z)]) = [Some (Ok (VInt 5))] /\
+  run_case (cxk_P false) 200 [cxk_root (ResumeRaises 1 77%Z)] = run_case (cxk_P true) 200 [cxk_root (ResumeRaises 1 77%Z)] /\
+  hist_guarded resume_ok (cxk_P true) 200 [cxk_root NoFault] (st0 (cxk_P true)) = true.
+Proof. exact cxk_repaired. Qed.
+Print Assumptions C20_first_witness_repaired.
+
+Theorem C20_keep_dependencies_costs_no_fuel :
+  run_case (cxf_P true) 16 [cxf_prog] = run_case (cxf_P false) 16 [cxf_prog] /\
+  fst (run_case (cxf_P true) 16 [cxf_prog]) = [Some (Ok (VInt 5))] /\
+  fst (run_case (cxf_P true) 15 [cxf_prog]) = [None] /\ fst (run_case (cxf_P false) 15 [cxf_prog]) = [None].
+Proof. exact cxf_same_fuel. Qed.
+Print Assumptions C20_keep_dependencies_costs_no_fuel.
+
+(* the hypothesis is satisfiable and the conclusion is not vacuous: a history of two computations with
+   two batch kinds, an async context, a nested task, an item error, a synchronous call, and Yields
+   without futures after dependencies have been stored *)
+Theorem C20_guard_is_satisfiable :
+  let P := mkP [] 1000 true [] in
+  hist_guarded resume_ok P 300 [keep_demo; keep_demo] (st0 P) = true /\
+  hist_guarded no_reentry P 300 [keep_demo; keep_demo] (st0 P) = true /\
+  fst (run_case P 300 [keep_demo; keep_demo]) = [Some (Ok (VTuple [VInt 10; VInt 7])); Some (Ok (VTuple [VInt 10; VInt 7]))].
+Proof. exact keep_demo_guarded. Qed.
+Print Assumptions C20_guard_is_satisfiable.
